@@ -62,4 +62,43 @@ theorem rsdp1_checksum_sums_20_bytes :
       "{let bytes=unsafe{slice::from_raw_parts(self as*const _ as*const u8,RSDPV1_LENGTH+8)};bytes[8..].iter().fold(0u8,|acc,val|acc.wrapping_add(*val))==0}" = true := by
   decide
 
+/-! ### method sets of the trait impls
+
+  An `impl Iterator for X` that gains an `nth` / `last` / `count` override, a `Header` impl that gains or loses a
+  `total_size` override, a `MaybeDynSized` impl that overrides `payload` / `as_bytes`: behaviour changes although no translated
+  body does (seeded C01c, C03d, C09d, C11d, C18d, C19d, C01e). The generated `trait_impls` lists, for every impl of these
+  traits in the three crates, the functions and constants it defines. -/
+
+def implsOf (tr : String) : List (String × List String) :=
+  match Gen.Fns.trait_impls with
+  | none => []
+  | some l => (l.filter (fun x => x.1 == tr)).map (fun x => (x.2.1, x.2.2))
+
+def implsKnown : Bool := Gen.Fns.trait_impls.isSome
+
+/-- the iterators implement `next` (and `size_hint` where the model has `len`) and NOTHING else: every other route through the
+    `Iterator` API is the standard library's default in terms of `next` -/
+theorem iterator_impls_only_next :
+    (!implsKnown || implsOf "Iterator" ==
+      [("EFIMemoryAreaIter", ["next", "size_hint"]), ("ElfSectionIter", ["next", "size_hint"]), ("ModuleIter", ["next"]),
+       ("TagIter", ["next"])]) = true := by decide
+theorem exact_size_impls :
+    (!implsKnown || (implsOf "ExactSizeIterator" == [("EFIMemoryAreaIter", ["len"]), ("ElfSectionIter", ["len"])] &&
+      implsOf "DoubleEndedIterator" == [] && implsOf "FusedIterator" == [])) = true := by decide
+/-- which header kinds override `total_size` (the two structure headers return the declared word; the tag headers use the
+    default `size_of + payload_len`) -/
+theorem header_impls :
+    (!implsKnown || implsOf "Header" ==
+      [("BootInformationHeader", ["payload_len", "set_size", "total_size"]), ("DummyTestHeader", ["payload_len", "set_size"]),
+       ("HeaderTagHeader", ["payload_len", "set_size"]), ("Multiboot2BasicHeader", ["payload_len", "set_size", "total_size"]),
+       ("TagHeader", ["payload_len", "set_size"])]) = true := by decide
+/-- no tag type overrides `header` / `payload` / `as_bytes` / `as_ptr`: each `MaybeDynSized` impl defines exactly
+    `BASE_SIZE` and `dst_len` -/
+theorem maybe_dyn_sized_impls_minimal :
+    (!implsKnown || (implsOf "MaybeDynSized").all (fun x => x.2 == ["const BASE_SIZE", "dst_len"])) = true := by decide
+theorem default_impls :
+    (!implsKnown || implsOf "Default" ==
+      [("Builder", ["default"]), ("EFIBootServicesNotExitedTag", ["default"]), ("EndHeaderTag", ["default"]), ("EndTag", ["default"]),
+       ("VBEControlInfo", ["default"]), ("VBEModeInfo", ["default"])]) = true := by decide
+
 end Mb2.Fns
